@@ -44,7 +44,7 @@ theorem lex_termW (hT : TextOK T L S) (uni : Bool) {sepB : List Nat → Nat → 
     (hsep : SepOK sepB sepF) : ∀ t : Skel, t.WF T L → t.NamesOK S → ∀ p : List Nat,
     Steps S (printTextW T L S uni sepB sepF p t) (printSkel T L uni t) Follow ∧
       ∀ rest, TextStart T (printTextW T L S uni sepB sepF p t ++ rest) := by
-  obtain ⟨h1, hdot, hlp, hrp, hdotT, hif, hthen, helse, hsafeL, hsafeR, hsafeD, _, hbin, hun, hbind, hTy, hdc⟩ := hT
+  obtain ⟨h1, hdot, hlp, hrp, hdotT, hif, hthen, helse, hsafeL, hsafeR, hsafeD, _, hbin, hun, hbind, hTy, hdc, hbr⟩ := hT
   have hB := fun p i => hsep.1 p i
   have hF := fun p => hsep.2 p
   have wrapL := fun {txt : List Nat} {toks : List Tok} (ht : Steps S txt toks Follow) (hs : ∀ rest, TextStart T (txt ++ rest)) (b : Bool) =>
@@ -201,6 +201,97 @@ theorem lex_termW (hT : TextOK T L S) (uni : Bool) {sepB : List Nat → Nat → 
       have := ts_binder (T := T) (binderTxt_mem hasc uni)
         (x ++ 58 :: 58 :: (printTyText L.ty S uni ty ++ 46 :: 32 :: printTextW T L S uni sepB sepF (0 :: p) body) ++ rest)
       simpa [printTextW, List.append_assoc] using this
+  | interval a b iha ihb =>
+    intro hw hn p
+    have ha := iha hw.1 hn.1 (0 :: p)
+    have hb := ihb hw.2 hn.2 (1 :: p)
+    obtain ⟨⟨hLc, hLt, hLs⟩, ⟨hDc, hDt, hDs⟩, ⟨hRc, hRt, hRs⟩⟩ := hbr
+    have hL : Steps S [123] [.sym L.lbrace] (SafeAfter S [123]) := by
+      have := steps_symbol (S := S) (w := [123]) (by decide) hLc
+      rw [hLt] at this; exact this
+    have hD : Steps S [46, 46] [.sym L.dotdot] (SafeAfter S [46, 46]) := by
+      have := steps_symbol (S := S) (w := [46, 46]) (by decide) hDc
+      rw [hDt] at this; exact this
+    have hR : Steps S [125] [.sym L.rbrace] Follow := by
+      have := steps_symbol (S := S) (w := [125]) (by decide) hRc
+      rw [hRt] at this
+      exact this.mono (fun rest _ => safe_only hRs rest)
+    refine ⟨?_, fun rest => by simpa [printTextW] using ts_lbrace (T := T) _⟩
+    have h4 := Steps.append hb.1 hR (fun rest _ => follow_rbrace rest)
+    have h3 := Steps.append hD h4 (fun rest _ => safe_beforeTerm hDs (by
+      have := hb.2 ([125] ++ rest)
+      simpa [List.append_assoc] using this))
+    have h2 := Steps.append ha.1 h3 (fun rest _ => follow_dot _)
+    have h1' := Steps.append hL h2 (fun rest _ => safe_beforeTerm hLs (by
+      have := ha.2 (([46, 46] ++ (printTextW T L S uni sepB sepF (1 :: p) b ++ [125])) ++ rest)
+      simpa [List.append_assoc] using this))
+    simpa [printTextW, printSkel, List.append_assoc] using h1'
+  | collect x body ihb =>
+    intro hw hn p
+    have hb := ihb hw hn.2 (0 :: p)
+    obtain ⟨⟨hLc, hLt, hLs⟩, _, ⟨hRc, hRt, hRs⟩⟩ := hbr
+    have hL : Steps S [123] [.sym L.lbrace] (SafeAfter S [123]) := by
+      have := steps_symbol (S := S) (w := [123]) (by decide) hLc
+      rw [hLt] at this; exact this
+    have hR : Steps S [125] [.sym L.rbrace] Follow := by
+      have := steps_symbol (S := S) (w := [125]) (by decide) hRc
+      rw [hRt] at this
+      exact this.mono (fun rest _ => safe_only hRs rest)
+    have hD : Steps S [46, 32] [.dot] (SafeAfter S [46, 32]) := by
+      have := steps_symbol (S := S) (w := [46, 32]) (by decide) hdotT
+      simpa [tokOfTerminal] using this
+    obtain ⟨hxn, hxi⟩ := hn.1
+    have hxs : ∀ r, TextStart T (x ++ r) := by
+      intro r
+      cases x with
+      | nil => simp [idShaped] at hxi
+      | cons c cs =>
+        simp only [idShaped, Bool.and_eq_true] at hxi
+        simp only [List.cons_append]
+        exact ts_head _ (Or.inl hxi.1)
+    refine ⟨?_, fun rest => by simpa [printTextW] using ts_lbrace (T := T) _⟩
+    have h4 := Steps.append hb.1 hR (fun rest _ => follow_rbrace rest)
+    have h3 := Steps.append hD h4 (fun rest _ => safe_dot hsafeD _)
+    have h2 := Steps.append (steps_name hxn) h3 (fun rest _ => by
+      intro c r hr; simp at hr; rw [← hr.1]; decide)
+    have h1' := Steps.append hL h2 (fun rest _ => safe_beforeTerm hLs (by
+      simp only [List.append_assoc]; exact hxs _))
+    simpa [printTextW, printSkel, List.append_assoc] using h1'
+  | collectT x ty body ihb =>
+    intro hw hn p
+    have hb := ihb hw hn.2.2 (0 :: p)
+    have hty := ty_lex hTy uni ty hn.2.1
+    have hC : Steps S [58, 58] [.sym L.dcolon] (fun _ => True) := dcolon_steps hdc
+    obtain ⟨⟨hLc, hLt, hLs⟩, _, ⟨hRc, hRt, hRs⟩⟩ := hbr
+    have hL : Steps S [123] [.sym L.lbrace] (SafeAfter S [123]) := by
+      have := steps_symbol (S := S) (w := [123]) (by decide) hLc
+      rw [hLt] at this; exact this
+    have hR : Steps S [125] [.sym L.rbrace] Follow := by
+      have := steps_symbol (S := S) (w := [125]) (by decide) hRc
+      rw [hRt] at this
+      exact this.mono (fun rest _ => safe_only hRs rest)
+    have hD : Steps S [46, 32] [.dot] (SafeAfter S [46, 32]) := by
+      have := steps_symbol (S := S) (w := [46, 32]) (by decide) hdotT
+      simpa [tokOfTerminal] using this
+    obtain ⟨hxn, hxi⟩ := hn.1
+    have hxs : ∀ r, TextStart T (x ++ r) := by
+      intro r
+      cases x with
+      | nil => simp [idShaped] at hxi
+      | cons c cs =>
+        simp only [idShaped, Bool.and_eq_true] at hxi
+        simp only [List.cons_append]
+        exact ts_head _ (Or.inl hxi.1)
+    refine ⟨?_, fun rest => by simpa [printTextW] using ts_lbrace (T := T) _⟩
+    have h5 := Steps.append hb.1 hR (fun rest _ => follow_rbrace rest)
+    have h4 := Steps.append hD h5 (fun rest _ => safe_dot hsafeD _)
+    have h3' := Steps.append hty h4 (fun rest _ => follow_dot _)
+    have h3 := Steps.append hC h3' (fun _ _ => trivial)
+    have h2 := Steps.append (steps_name hxn) h3 (fun rest _ => by
+      intro c r hr; simp at hr; rw [← hr.1]; decide)
+    have h1' := Steps.append hL h2 (fun rest _ => safe_beforeTerm hLs (by
+      simp only [List.append_assoc]; exact hxs _))
+    simpa [printTextW, printSkel, List.append_assoc] using h1'
 
 /-- the line-broken text lexes to the printer's tokens, hence to the same tokens as the unbroken text -/
 theorem broken_same_tokens_core (hT : TextOK T L S) (uni : Bool) {sepB : List Nat → Nat → List Nat} {sepF : List Nat → List Nat}
